@@ -336,6 +336,16 @@ type pipeBackend struct {
 	// readFirst > 0: a full-duplex handler: it reads only this many bytes of the request, writes its whole
 	// response, and reads the rest of the request afterwards
 	readFirst int
+	// hook, when set, is called at fixed points of the handler: 0 on entry, 1 after the first read of the
+	// request, 2 after the first response message was written, 3 after the response was completed (before a
+	// full-duplex handler reads the rest of the request)
+	hook func(point int)
+}
+
+func (b *pipeBackend) at(point int) {
+	if b.hook != nil {
+		b.hook(point)
+	}
 }
 
 // write modes (segmentation of the backend's response body)
@@ -454,6 +464,7 @@ func (b *pipeBackend) ServeHTTP(w http.ResponseWriter, r *http.Request) {
 	rec.contentLen = r.ContentLength
 	rec.ctx = r.Context()
 	rec.writer = w
+	b.at(0)
 	if !b.skipRead && b.readFirst > 0 {
 		first := make([]byte, b.readFirst)
 		n, err := r.Body.Read(first)
@@ -463,6 +474,7 @@ func (b *pipeBackend) ServeHTTP(w http.ResponseWriter, r *http.Request) {
 		}
 		late := err == nil
 		defer func() {
+			b.at(3)
 			if late {
 				rest, err := readAllSized(r.Body, b.bufSize, 200)
 				rec.body = append(rec.body, rest...)
@@ -479,7 +491,9 @@ func (b *pipeBackend) ServeHTTP(w http.ResponseWriter, r *http.Request) {
 		if b.closeBody {
 			r.Body.Close()
 		}
+		defer b.at(3)
 	}
+	b.at(1)
 	s := b.script
 	if s == nil {
 		return
@@ -516,6 +530,9 @@ func (b *pipeBackend) ServeHTTP(w http.ResponseWriter, r *http.Request) {
 		}
 		for k, v := range s.trailerHdrs {
 			h[k] = v
+		}
+		if s.declareLen {
+			h.Set("Content-Length", "0")
 		}
 		w.WriteHeader(200)
 		return
@@ -555,6 +572,9 @@ func (b *pipeBackend) ServeHTTP(w http.ResponseWriter, r *http.Request) {
 			fl = 1
 		}
 		sw.write(appendFrame(nil, fl, encodeMsg(b.codec, m)))
+		if i == 0 {
+			b.at(2)
+		}
 	}
 	switch b.target {
 	case ProtocolGRPC:
